@@ -215,6 +215,10 @@ D3_PAIRS = [(".repeat 3 { .word ./2 }\n", ".word ./2\n.word ./2\n.word ./2\n"), 
 PAIRS += D3_PAIRS
 
 
+LINK_SETS = [["mov #1, r0\nnop\n", "clr r1\n", ".word ., 177777\n"], ["a: .word a\n.byte 1\n", ".even\nb: .word b, .\n", "c: .word c\n.repeat 2 { .word . }\n"],
+             [".byte 1, 2, 3\n", ".even\nq: mov #q, r0\n", ".align 10\n.word .\n"], ["nop\n", ".word .\n"], ["nop\n", "nop\n", "nop\n", ".word .\n"]]
+
+
 def unit_rac(eng):
     import tempfile
     import shutil
@@ -227,6 +231,14 @@ def unit_rac(eng):
         ra, rb = res[2 * i], res[2 * i + 1]
         if (ra["status"], ra.get("code_hex")) != (rb["status"], rb.get("code_hex")):
             bad.append((a, ra["status"], ra.get("code_hex"), rb.get("code_hex")))
+    # three and four linked files vs their concatenation
+    j3 = []
+    for fs in LINK_SETS:
+        j3 += [{"kind": "asm", "sources": fs}, {"kind": "asm", "sources": ["".join(fs)]}]
+    r3 = driver.native(j3, driver.tree_root())
+    for i in range(len(LINK_SETS)):
+        if (r3[2 * i]["status"], r3[2 * i].get("code_hex")) != (r3[2 * i + 1]["status"], r3[2 * i + 1].get("code_hex")):
+            bad.append((LINK_SETS[i], r3[2 * i]["status"], r3[2 * i].get("code_hex"), r3[2 * i + 1].get("code_hex")))
     # files vs concatenation; insert_file vs .byte; .once
     d = tempfile.mkdtemp(prefix="pyvc-c16-")
     try:
@@ -296,6 +308,17 @@ def replay(o, tree):
     cfg = o.get("cfg") or {}
     if cfg.get("kind") == "concat":
         return deferred_c.replay_concat(cfg, tree)
+    if cfg.get("kind") == "linkfiles":
+        # 1..3 linked files against their concatenation assembled as one file (position-dependent content in every file)
+        sets = LINK_SETS
+        jobs = []
+        for fs in sets:
+            jobs += [{"kind": "asm", "sources": fs}, {"kind": "asm", "sources": ["".join(fs)]}]
+        res = driver.native(jobs, tree)
+        out = [(sets[i], [res[2 * i]["status"], res[2 * i].get("code_hex")], [res[2 * i + 1]["status"], res[2 * i + 1].get("code_hex")]) for i in range(len(sets))
+               if (res[2 * i]["status"], res[2 * i].get("code_hex")) != (res[2 * i + 1]["status"], res[2 * i + 1].get("code_hex"))]
+        if out:
+            return dict(jobs=jobs[:2], expected="linking files == assembling their concatenation", observed=out[:2], reproduced=True)
     if "a-.end-inside-a-repeat-body" in o.get("label", ""):
         jobs, out = _pairs(tree, D40_PAIRS)
         return dict(jobs=jobs, expected="'.end' inside a repeat body discards the rest of the file", observed=out, reproduced=bool(out))
@@ -303,6 +326,11 @@ def replay(o, tree):
         jobs, out = _pairs(tree, D3_PAIRS)
         return dict(jobs=jobs, expected="'.repeat n { body }' == body written n times", observed=out, reproduced=bool(out))
     jobs, out = _pairs(tree, PAIRS)
+    if not out and o.get("kind") == "rac":
+        r = replay(dict(o, cfg=dict(kind="linkfiles"), kind="vc"), tree)
+        if r.get("reproduced"):
+            return r
+        return None          # evaluated on the real assembler already: the failing case is in the obligation's detail
     return dict(jobs=jobs, expected="'.repeat n { body }' == body written n times", observed=out, reproduced=bool(out))
 
 
